@@ -58,6 +58,7 @@ func runC13(c *core.Ctx) {
 	globalsRule(c, "C13-GLOBALS")
 	poolTypestate(c, "C13-POOL")
 	goRule(c)
+	codecStateRule(c)
 	unsafeRule(c, "C13-POOL")
 	// a result that shares memory with pooled storage is written by whichever goroutine gets that storage next: the
 	// encode-side ownership rules and the pool rules of C12 are race conditions here
@@ -71,6 +72,11 @@ func runC13(c *core.Ctx) {
 	// rules of C09 (a setter stores its arguments as they are and returns the builder)
 	importRulesFn(c, "C09", "C13-SHARED", func(sub *core.Ctx) { buildExtras(sub) }, func(o core.Obligation) bool {
 		return o.Rule == "C09-BUILD" && strings.HasPrefix(o.Key, "BatchDataCodingEncoder.")
+	})
+	// a reader / writer handed out by its constructor carries nothing over from the call that used it before: a recycled
+	// object that keeps its error or its counter makes one call's failure another call's - the constructor rule of C20
+	importRulesFn(c, "C20", "C13-SHARED", func(sub *core.Ctx) { runC20(sub) }, func(o core.Obligation) bool {
+		return o.Rule == "C20-SHAPE" && strings.HasSuffix(o.Key, "#ctor")
 	})
 	// positive fixture
 	overlay := map[string][]byte{c.Prog.Dir + "/packet/zz_verif_fixture.go": []byte(c13Fixture)}
@@ -547,4 +553,46 @@ func putsItsParam(fn *ssa.Function) bool {
 		}
 	}
 	return false
+}
+
+// codecStateRule (C13-GLOBALS #codec): the stream codecs (package codec) are handed to every connection alike - one value
+// serves many streams, from many goroutines. A method that writes a field of its receiver keeps state from one call (one
+// connection) for the next.
+func codecStateRule(c *core.Ctx) {
+	n := 0
+	for fn := range ssaFunctions(c.Prog) {
+		if fn.Pkg == nil || load.Rel(fn.Pkg.Pkg.Path()) != "codec" || fn.Signature.Recv() == nil || len(fn.Params) == 0 {
+			continue
+		}
+		n++
+		recv := ssa.Value(fn.Params[0])
+		bad := ""
+		for _, b := range fn.Blocks {
+			for _, ins := range b.Instrs {
+				st, ok := ins.(*ssa.Store)
+				if !ok {
+					continue
+				}
+				a := st.Addr
+				for i := 0; i < 6; i++ {
+					switch x := a.(type) {
+					case *ssa.FieldAddr:
+						a = x.X
+						continue
+					case *ssa.IndexAddr:
+						a = x.X
+						continue
+					}
+					break
+				}
+				if a == recv {
+					bad = "the method writes a field of the codec at " + c.Prog.Pos(st.Pos()) + ": what one stream leaves there is found by the next call, on whichever connection it is made"
+				}
+			}
+		}
+		c.Decide(bad == "", "C13-GLOBALS", "codec."+funcKey(fn)+"#stateless", c.Prog.Pos(fn.Pos()), "the codec keeps no state between calls", bad)
+	}
+	if n == 0 {
+		c.Broken("C13-GLOBALS", "codec#stateless", "no codec method found")
+	}
 }
